@@ -216,9 +216,15 @@ func VerifC08Converge(h *verifh.H) {
 		e.IsDeleted = h.Choice("del", 2) == 1
 		return e
 	}
-	run := func() {
+	flaky := h.Param("flaky", 0) == 1
+	var runWith func(failCall int)
+	run := func() { runWith(-1) }
+	runWith = func(failCall int) {
 		ds := &source.DatasetSource{DatasetName: "src", Store: hub.Store, DatasetManager: hub.Dsm, LatestOnly: latestOnly}
-		sink := &datasetSink{DatasetName: "dst", Store: hub.Store, DatasetManager: hub.Dsm}
+		var sink Sink = &datasetSink{DatasetName: "dst", Store: hub.Store, DatasetManager: hub.Dsm}
+		if failCall >= 0 {
+			sink = &vFlakySink{Sink: sink, failCall: failCall}
+		}
 		spec := PipelineSpec{source: ds, sink: sink, batchSize: batchSize}
 		var pl Pipeline = &IncrementalPipeline{spec}
 		if full {
@@ -226,14 +232,31 @@ func VerifC08Converge(h *verifh.H) {
 		}
 		j := &job{id: "copy", title: "copy", pipeline: pl, runner: vRunner(hub, 1, 1)}
 		_, err := pl.sync(j, context.Background())
+		if failCall >= 0 {
+			return
+		}
 		h.Assert(err == nil, "run succeeds")
 		h.Assert(vJoinS(vListing(hub, "dst")) == vJoinS(vListing(hub, "src")), "after a successful run the sink's latest view equals the source's :: dst="+vJoinS(vListing(hub, "dst"))+" src="+vJoinS(vListing(hub, "src")))
 	}
 	writes := h.Param("writes", 2)
 	for k := 0; k < writes; k++ {
 		h.Assert(src.StoreEntities([]*server.Entity{draw("w" + itoa(k))}) == nil, "source write")
-		if k == 0 || h.Choice("runNow", 2) == 1 {
+		if flaky {
+			switch h.Choice("runNow", 4) {
+			case 1:
+				run()
+			case 2:
+				runWith(0)
+			case 3:
+				runWith(1)
+			}
+		} else if k == 0 || h.Choice("runNow", 2) == 1 {
 			run()
+		}
+	}
+	if flaky {
+		if fc := h.Choice("failCall", 3); fc > 0 {
+			runWith(fc - 1)
 		}
 	}
 	run()
@@ -267,12 +290,20 @@ func VerifC08Union(h *verifh.H) {
 		sort.Strings(all)
 		return all
 	}
-	run := func() {
+	flaky := h.Param("flaky", 0) == 1
+	// failCall >= 0: the sink refuses that call of the run (a transient failure); the run may
+	// fail, and nothing is asserted about it except that it does not lose data for later runs
+	var runWith func(failCall int)
+	run := func() { runWith(-1) }
+	runWith = func(failCall int) {
 		us := &source.UnionDatasetSource{DatasetSources: []*source.DatasetSource{
 			{DatasetName: "s1", Store: hub.Store, DatasetManager: hub.Dsm, LatestOnly: latestOnly},
 			{DatasetName: "s2", Store: hub.Store, DatasetManager: hub.Dsm, LatestOnly: latestOnly},
 		}}
-		sink := &datasetSink{DatasetName: "dst", Store: hub.Store, DatasetManager: hub.Dsm}
+		var sink Sink = &datasetSink{DatasetName: "dst", Store: hub.Store, DatasetManager: hub.Dsm}
+		if failCall >= 0 {
+			sink = &vFlakySink{Sink: sink, failCall: failCall}
+		}
 		spec := PipelineSpec{source: us, sink: sink, batchSize: batchSize}
 		var pl Pipeline = &IncrementalPipeline{spec}
 		if full {
@@ -280,6 +311,9 @@ func VerifC08Union(h *verifh.H) {
 		}
 		j := &job{id: "union", title: "union", pipeline: pl, runner: vRunner(hub, 1, 1)}
 		_, err := pl.sync(j, context.Background())
+		if failCall >= 0 {
+			return
+		}
 		h.Assert(err == nil, "run succeeds")
 		h.Assert(vJoinS(vListing(hub, "dst")) == vJoinS(union()), "after a successful run the sink's latest view equals the union of the sources' :: dst="+vJoinS(vListing(hub, "dst"))+" sources="+vJoinS(union()))
 	}
@@ -294,8 +328,22 @@ func VerifC08Union(h *verifh.H) {
 		e.Properties["ns0:tag"] = "w" + itoa(k)
 		e.IsDeleted = h.Choice("del", 2) == 1
 		h.Assert(ds.StoreEntities([]*server.Entity{e}) == nil, "source write")
-		if k == 0 || h.Choice("runNow", 2) == 1 {
+		if flaky {
+			switch h.Choice("runNow", 4) {
+			case 1:
+				run()
+			case 2:
+				runWith(0)
+			case 3:
+				runWith(1)
+			}
+		} else if k == 0 || h.Choice("runNow", 2) == 1 {
 			run()
+		}
+	}
+	if flaky {
+		if fc := h.Choice("failCall", 3); fc > 0 {
+			runWith(fc - 1)
 		}
 	}
 	run()
@@ -305,4 +353,19 @@ func VerifC08Union(h *verifh.H) {
 		h.Assert(vFeedLen(hub, "dst") == n, "re-running with nothing new adds nothing to the sink")
 	}
 	h.Observe("dst", vJoinS(vListing(hub, "dst")))
+}
+
+// vFlakySink refuses one call of processEntities and passes everything else on.
+type vFlakySink struct {
+	Sink
+	failCall int
+	calls    int
+}
+
+func (s *vFlakySink) processEntities(runner *Runner, entities []*server.Entity) error {
+	s.calls++
+	if s.calls-1 == s.failCall {
+		return errors.New("sink unavailable")
+	}
+	return s.Sink.processEntities(runner, entities)
 }
